@@ -63,10 +63,11 @@ func arrayStringIn(st *State, a *ArrayV) string {
 func checkC18(c *Ctx) {
 	p := c.P
 	c.Level = "other"
-	c.Explain = "C18 decided by abstract interpretation of parse(build(v)) for symbolic values: the Roland-style builder is run with symbolic ids, address, request size and a payload of symbolic length >= 1; the parser is run on the abstract result with the checksum function treated as an uninterpreted function of the fields it covers, so parse succeeds on all partitions iff both sides apply the same function to the same fields at the same positions, and the returned value must equal the built one; likewise for machine-control locate and plain commands. Not decided: the checksum arithmetic itself (sum = 0 mod 128, corruption detection)."
-	c.Trusted = []string{"go/ssa", "E-abs incl. bytes.Buffer summary", "checksum treated as uninterpreted function (its arithmetic is not analysed)"}
+	c.Explain = "C18 decided by abstract interpretation of parse(build(v)) for symbolic values: the Roland-style builder is run with symbolic ids, address, request size and a payload of symbolic length >= 1; the parser is run on the abstract result with the checksum function treated as an uninterpreted function of the fields it covers, so parse succeeds on all partitions iff both sides apply the same function to the same fields at the same positions, and the returned value must equal the built one; likewise for machine-control locate and plain commands. The checksum arithmetic is decided in the congruence partition sum = 128*q + r for all 128 residues (zero sum, 7-bit result); a wrong checksum byte is rejected on every accepting path; with each covered byte entering the sum exactly once, a single-byte change of address or payload by d in 1..127 moves the required checksum by -d mod 128 != 0 and is rejected by the same comparison. Not decided: multi-byte corruptions that cancel out (not claimed by the property)."
+	c.Trusted = []string{"go/ssa", "E-abs incl. bytes.Buffer summary", "checksum treated as uninterpreted function in the parse(build) cells; its arithmetic is decided separately (C18.4) with the summation loop summarised as a sum symbol"}
 	c.Rule("C18.1", "Roland-style frame: Parse(SysEx(v)) succeeds on every partition and returns v (ids, address, payload of any length >= 1 / request size); builder layout F0 id dev model 11|12 addr x3 (size x3 | data) checksum F7", 4)
 	c.Rule("C18.2", "checksum coverage: builder and parser apply the same checksum function to the same fields (address + payload/size); every accepting path of the parser has compared the checksum byte with it", 4)
+	c.Rule("C18.4", "zero sum: for every residue class of the covered bytes' sum (partition by sum mod 128, the multiple of 128 symbolic; the class reached through the payload sum, through each address byte and through each size byte) the checksum c is a constant with 0 <= c <= 127 and sum + c = 0 mod 128", 7)
 	c.Rule("C18.3", "machine control: locate and plain commands parse back to the value they were built from (device ids 1..127, commands below 0x40)", 2)
 
 	// ---------------- Roland frame
@@ -320,6 +321,11 @@ func checkC18(c *Ctx) {
 		c.Check(okA && okN && whole, "C18.2", "checksum reads address x3, size x3 and the whole payload", p.Pos(cks.Pos()), "all covered fields are read by the checksum function", fmt.Sprintf("checksum function does not read every covered byte (address indices %d/3, size indices %d/3, whole payload %v)", len(idx["Address"]), len(idx["NumReqBytes"]), whole))
 	}
 
+	// ---------------- checksum arithmetic (C18.4)
+	if mt != nil && cks != nil {
+		checksumArithmetic(c, mt, cks)
+	}
+
 	// ---------------- MMC
 	gt := p.namedType("mmc", "GoTo")
 	if gt == nil {
@@ -414,5 +420,96 @@ func checkC18(c *Ctx) {
 			}
 		}
 		c.Check(ok && n > 0, "C18.3", "plain machine-control command parses what it builds", "-", "F0 7F dev 06 cmd F7 accepted, device and command recovered (device 1..127, command < 0x40 symbolic)", why)
+	}
+}
+
+// checksumArithmetic (C18.4): Checksum() is interpreted in the congruence partition "covered sum = 128*q + r" for every
+// residue r, with q symbolic: the payload is an opaque run of any length whose byte sum is defined as 128*q + r (the
+// summation loop is summarised, abs_exec.go sumLoop), or r sits in one address / size byte and the rest sums to 128*q.
+// In every class the result must be the constant (128 - r) mod 128.
+func checksumArithmetic(c *Ctx, mt types.Type, cks *ssa.Function) {
+	p := c.P
+	type where struct {
+		name string
+		req  bool
+		slot int // 0: payload sum, 1..3: address byte, 4..6: size byte
+	}
+	var ws []where
+	ws = append(ws, where{"residue in the payload sum", false, 0})
+	for i := 1; i <= 3; i++ {
+		ws = append(ws, where{fmt.Sprintf("residue in address byte %d (data set)", i-1), false, i})
+	}
+	for i := 4; i <= 6; i++ {
+		ws = append(ws, where{fmt.Sprintf("residue in size byte %d (data request)", i-4), true, i})
+	}
+	for _, w := range ws {
+		ok, why, n := true, "", 0
+		for r := int64(0); r < 128 && ok; r++ {
+			ex := NewExec(p)
+			st := ex.NewState()
+			mv := ex.zeroOf(mt).(*StructV)
+			set := func(n string, v Val) { mv.Fields[fieldIndex(mv.T, n)] = v }
+			k8 := func(v int64) Val { return mkConst(v, 8, false) }
+			addr := []Val{k8(0), k8(0), k8(0)}
+			size := []Val{k8(0), k8(0), k8(0)}
+			if w.slot >= 1 && w.slot <= 3 {
+				addr[w.slot-1] = k8(r)
+			}
+			if w.slot >= 4 {
+				size[w.slot-4] = k8(r)
+			}
+			set("Address", &ArrayV{Elem: types.Typ[types.Uint8], Segs: []Seg{{Elems: addr}}})
+			set("NumReqBytes", &ArrayV{Elem: types.Typ[types.Uint8], Segs: []Seg{{Elems: size}}})
+			set("InfoRequest", &BoolV{Known: true, Val: w.req})
+			if !w.req {
+				data := ex.unknownSlice(st, types.Typ[types.Uint8], "payload", 1)
+				st.refineSym(data.Len.T.Syms[0], 1, 512)
+				set("SendingData", data)
+				segs, _ := ex.sliceSegs(st, data)
+				if len(segs) != 1 || segs[0].Run == nil {
+					c.Unk("C18.4", "payload model", "-", "unexpected shape")
+					return
+				}
+				run := segs[0].Run
+				sname := fmt.Sprintf("sum(%s@%s,%s)", run.Src, run.Off, run.Len)
+				sum := ex.syms.Get(sname, 64, true)
+				q := ex.syms.Get("q", 64, true)
+				st.refineSym(q, 0, 1000)
+				res := int64(0)
+				if w.slot == 0 {
+					res = r
+				}
+				sum.DefTerm = termAdd(termScale(symTerm(q), 128), constTerm(res), 1)
+				st.refineSym(sum, 0, 128*1000+127)
+			}
+			outs := ex.Call(st, cks, []Val{mv}, nil)
+			if ex.Budget || len(outs) == 0 {
+				ok, why = false, "checksum function not interpretable"
+				break
+			}
+			for u := range ex.Unsupported {
+				ok, why = false, "unmodelled construct: "+u
+			}
+			for _, o := range outs {
+				n++
+				if o.Panic || len(problemEvents(o.St.Events)) > 0 {
+					ok, why = false, "may panic: "+o.Msg+fmtEvents(problemEvents(o.St.Events))
+					continue
+				}
+				cv, _ := o.Ret[0].(*IntV)
+				cc, isC := int64(0), false
+				if cv != nil {
+					cc, isC = o.St.ConstOf(cv)
+				}
+				if !isC {
+					ok, why = false, fmt.Sprintf("covered sum = 128*q + %d: the checksum is not a single value (%s): the summation or the reduction modulo 128 is not what the specification prescribes", r, valString(o.Ret[0]))
+					continue
+				}
+				if cc < 0 || cc > 127 || (r+cc)%128 != 0 {
+					ok, why = false, fmt.Sprintf("covered sum = 128*q + %d: checksum %d; sum + checksum must be 0 modulo 128 with a 7-bit checksum (expected %d)", r, cc, (128-r)%128)
+				}
+			}
+		}
+		c.Check(ok && n > 0, "C18.4", "checksum arithmetic, "+w.name, p.Pos(cks.Pos()), "128 residue classes x symbolic multiple of 128: checksum = (128 - r) mod 128", why)
 	}
 }
